@@ -32,7 +32,7 @@ Definition out_match (o : outcome) (b : obs) : bool :=
   match o with
   | ODenied m => negb (ob_ok b) && String.eqb (ob_reason b) "PERMISSION_DENIED" && String.eqb (ob_msg b) m
   | ONotFound m => negb (ob_ok b) && String.eqb (ob_reason b) "ITEM_NOT_FOUND" && String.eqb (ob_msg b) m
-  | OPreFail | OPostFail => negb (ob_ok b) && negb (access_refusal_text (ob_msg b))
+  | OPreFail | OPostFail | OMidFail => negb (ob_ok b) && negb (access_refusal_text (ob_msg b))
   | OSuccess ids => ob_ok b && same_set ids (ob_ids b)
   | OUnsupported | OStuck => false
   end.
